@@ -633,7 +633,13 @@ func (e *Exec) storeWithHooks(st *State, p *Place, v Value, pos token.Pos) {
 	if p.Kind == PField || p.Kind == PObj {
 		if pre, _ := placePrefix(p); e.eng.specs.StableNonNil[pre] && len(v.L) == 1 {
 			// history constraint: this field never goes back to nil on a published object
-			if !(st.fresh[p.Base.S] && !st.published[p.Base.S]) {
+			unpub := false
+			if e.top != nil && e.top.contract != nil && e.top.contract.Attrs["unpublished"] != "" {
+				if v, ok := e.top.params[e.top.contract.Attrs["unpublished"]]; ok && len(v.L) == 1 && v.L[0].S == p.Base.S {
+					unpub = true // the receiver is still being built (e.g. UnmarshalJSON)
+				}
+			}
+			if !(st.fresh[p.Base.S] && !st.published[p.Base.S]) && !unpub {
 				what := e.eng.srcText(pos)
 				e.oblige(st, "stable", "nonnil:"+pre+":"+what, Neq(v.L[0], Zero), pos, nil, "store to "+pre+" must keep it non-nil")
 			}
